@@ -34,7 +34,8 @@ component hands to the next) and adds thin wrappers where a component model lack
 All randomness and the environment are explicit inputs (`Inputs`): spatial / temporal coverage rolls
 per (day, method, emission), the travel time sampled for a visit per (day, method, site), the result of
 the weather check per (day, method, site), the daylight minutes per day, the repair cost drawn for an
-emission, the calendar date of a day index.  The repair delay sampled for an emission and its rate are
+emission, the calendar date of a day index.  The quantification shift is the constant `MethodCfg.err`
+(0 in the configurations the harness generates).  The repair delay sampled for an emission and its rate are
 part of the scenario (`EmInfo`).  Static parameters stay outside the state.
 -/
 namespace LdarModel.Sim
@@ -119,16 +120,24 @@ structure MethSt where
 
 instance : Inhabited MethSt := ⟨{}⟩
 
-/-- `ss` and `covs` run parallel to `World.ems` -/
+/-- what a tagging call leaves on an emission besides its life-cycle fields: `_measured_rate` (in
+hundredths of the rate unit; `none` = never tagged / recorded) and `_estimated_days_active` -/
+structure Ext where
+  measured : Option Rat := none
+  estDays : Int := 0
+  deriving Repr, Inhabited
+
+/-- `ss`, `covs` and `ext` run parallel to `World.ems` -/
 structure St where
   ss : List Emission.State
   covs : List Cov
+  ext : List Ext
   srcs : List Heap.Src
   latestTag : Nat → Int := fun _ => 0    -- `Site._latest_tagging_survey_date`
   ms : List MethSt
 
 def init (w : World) (prog : Program) : St :=
-  { ss := w.ems.map (fun _ => {}), covs := w.ems.map (fun _ => []), srcs := w.srcs,
+  { ss := w.ems.map (fun _ => {}), covs := w.ems.map (fun _ => []), ext := w.ems.map (fun _ => {}), srcs := w.srcs,
     ms := prog.map (fun _ => {}) }
 
 /-! ## small wrappers -/
@@ -216,6 +225,7 @@ structure Done where
   out : Crew.OutRec                  -- the crew record of the visit that completed the survey
   rep : Sensor.SiteRep
   targets : List (Nat × Nat)
+  tSince : Int                       -- days since the site's latest tagging survey (`t_since_LDAR`)
   hrep : rep = Sensor.surveyOf sv
   htargets : targets = Sensor.tagTargets rep
 
@@ -242,20 +252,20 @@ structure Acc where
 states after activation (the same for every method of the day: tagging and detection records do not
 change what a sensor sees, `Props/Sim.lean: events_view`) -/
 def surveyOne (w : World) (inp : Inputs) (n m : Nat) (c : MethodCfg) (ss : List Emission.State)
-    (acc : List Cov × List Done) (o : Crew.OutRec) : List Cov × List Done :=
+    (lt : Nat → Int) (acc : List Cov × List Done) (o : Crew.OutRec) : List Cov × List Done :=
   let site := o.req.site
   let xs := mkXs w inp n m ss acc.1
   let sv : Sensor.SurveyIn :=
     { cfg := sensorCfg w c site, m := m, trd := c.trd, mdl := c.mdl, site := site, xs := xs }
   (setCovs acc.1 (Sensor.after m site xs),
    acc.2 ++ [{ sv := sv, out := o, rep := Sensor.surveyOf sv, targets := Sensor.tagTargets (Sensor.surveyOf sv),
-               hrep := rfl, htargets := rfl }])
+               tSince := (n : Int) - lt site, hrep := rfl, htargets := rfl }])
 
 def completed (dd : Crew.DaySt) : List Crew.OutRec := dd.out.filter (fun o => o.rep.complete)
 
 def surveyAll (w : World) (inp : Inputs) (n m : Nat) (c : MethodCfg) (ss : List Emission.State)
-    (covs : List Cov) (dd : Crew.DaySt) : List Cov × List Done :=
-  (completed dd).foldl (surveyOne w inp n m c ss) (covs, [])
+    (lt : Nat → Int) (covs : List Cov) (dd : Crew.DaySt) : List Cov × List Done :=
+  (completed dd).foldl (surveyOne w inp n m c ss lt) (covs, [])
 
 def tagCount (dones : List Done) : Int := (dones.map (fun d => (d.targets.length : Int))).sum
 
@@ -351,7 +361,7 @@ def mkTrace (m : Nat) (c : MethodCfg) (inp : Inputs) (n : Nat) (pd : PlanDay) (d
 def methodStep (w : World) (inp : Inputs) (n : Nat) (ss : List Emission.State) (acc : Acc) (m : Nat)
     (c : MethodCfg) : Acc :=
   let pd := planDay c inp n m (acc.ms.getD m {}) acc.latestTag
-  let sv := surveyAll w inp n m c ss acc.covs pd.dd
+  let sv := surveyAll w inp n m c ss acc.latestTag acc.covs pd.dd
   let po := postStep c inp n m acc.ms acc.latestTag pd sv.2
   { ms := po.ms, latestTag := po.latestTag, covs := sv.1,
     traces := acc.traces ++ [mkTrace m c inp n pd sv.2 po.flags po.tags] }
@@ -437,6 +447,36 @@ def finishEm (n : Nat) (dones : List Done) (info : EmInfo) (s : Emission.State) 
   let mid := (evsOf info dones).foldl (fun s ev => Emission.applyEv info.p (n : Int) ev s) s
   { info := info, mid := mid, fin := Emission.update info.p mid }
 
+/-- `Component.tag_emissions`: the measured rate of the component is shared equally among the
+emissions in its active list -/
+def shareOf (info : EmInfo) (d : Done) : Rat :=
+  let meas : Int := ((d.rep.eqgs.filter (fun er => er.eqg = info.eqg)).flatMap
+      (fun er => (er.comps.filter (fun cr => cr.comp = info.comp)).map (·.measured))).headD 0
+  let nAct : Nat := (d.sv.xs.filter (fun x => x.1.active && decide (x.1.site = info.site) &&
+      decide (x.1.eqg = info.eqg) && decide (x.1.comp = info.comp))).length
+  ((meas : Int) : Rat) / ((nAct : Int) : Rat)
+
+/-- `tag_leak` / `record_emission`, the fields outside the life-cycle: first tag of a repairable
+emission fixes measured rate and estimated days active; a non-repairable emission averages the
+measured rate and adds up the estimated days on every further record -/
+def tagExt (p : Emission.Params) (s : Emission.State) (share : Rat) (tSince : Int) (x : Ext) : Ext :=
+  if s.status ≠ .active then x
+  else if p.repairable then
+    (if s.tagged then x else { measured := some share, estDays := tSince })
+  else
+    (if s.tagged then { measured := some (((x.measured.getD 0) + share) / 2), estDays := x.estDays + tSince }
+     else { measured := some share, estDays := tSince })
+
+/-- the same fold as `finishEm`, carrying the extra fields along the life-cycle state -/
+def extOfDone (n : Nat) (info : EmInfo) (acc : Emission.State × Ext) (d : Done) : Emission.State × Ext :=
+  let evs := evOfDone info d
+  let x' := if d.sv.site = info.site ∧ d.targets.contains (info.eqg, info.comp) then
+      tagExt info.p acc.1 (shareOf info d) d.tSince acc.2 else acc.2
+  (evs.foldl (fun s ev => Emission.applyEv info.p (n : Int) ev s) acc.1, x')
+
+def finishExt (n : Nat) (dones : List Done) (info : EmInfo) (s : Emission.State) (x : Ext) : Ext :=
+  (dones.foldl (extOfDone n info) (s, x)).2
+
 def repSumOf (inp : Inputs) (days : List EmDay) : Int :=
   (days.map (fun x => (Cost.bookOnUpdate x.info.p (inp.repairCost x.info.idx) x.mid).1)).sum
 def natSumOf (inp : Inputs) (days : List EmDay) : Int :=
@@ -458,7 +498,8 @@ def simDayOut (w : World) (prog : Program) (inp : Inputs) (n : Nat) (st : St) : 
   let days := List.zipWith (finishEm n dones) w.ems ss1
   let cols := acc.traces.map colsOf
   let crow := Cost.dailyRow (decide (n = 0)) (methodDays cols) (repSumOf inp days) (natSumOf inp days)
-  { st := { ss := days.map (·.fin), covs := acc.covs, srcs := r.map (·.2), latestTag := acc.latestTag, ms := acc.ms },
+  { st := { ss := days.map (·.fin), covs := acc.covs, ext := zip3With (finishExt n dones) w.ems ss1 st.ext,
+            srcs := r.map (·.2), latestTag := acc.latestTag, ms := acc.ms },
     row := { em := emRow (newIds.length : Nat) days, cost := crow,
              tagged := (cols.map (fun c => c.tags.getD 0)).sum, meth := cols },
     traces := acc.traces, newIds := newIds, days := days }
